@@ -58,7 +58,14 @@ func (f *Frame) instr(ins ssa.Instruction) {
 			f.def(x, fmt.Sprintf("(mk_iface %d %s)", tag, v.T))
 		} else {
 			box := e.fresh("box")
-			e.decl(box, "Int")
+			if e.orderMode {
+				// order check: boxing the same value yields the same interface value in either order
+				sym := fmt.Sprintf("boxof!%d", tag)
+				e.S.declare(sym, fmt.Sprintf("(declare-fun %s (%s) Int)", q(sym), so))
+				box = e.define("box", "Int", fmt.Sprintf("(%s %s)", q(sym), v.T))
+			} else {
+				e.decl(box, "Int")
+			}
 			e.assert(fmt.Sprintf("(= (%s %s) %s)", e.S.unboxFn(t), box, v.T))
 			f.def(x, fmt.Sprintf("(mk_iface %d %s)", tag, box))
 		}
@@ -246,6 +253,7 @@ func (f *Frame) binop(x *ssa.BinOp) {
 		case token.ADD:
 			n := f.vname(x)
 			e.decl(n, "Str")
+			e.assert(fmt.Sprintf("(= %s (str_cat %s %s))", n, a, b))
 			e.assert(fmt.Sprintf("(and (= (s_off %s) 0) (= (s_len %s) (+ (s_len %s) (s_len %s))))", n, n, a, b))
 			if e.con != nil && e.con.StringsExact {
 				e.assert(fmt.Sprintf("(forall ((k Int)) (=> (and (<= 0 k) (< k (s_len %s))) (= (select (s_arr %s) k) (str_at %s k))))", a, n, a))
@@ -715,6 +723,11 @@ func (f *Frame) next(x *ssa.Next) {
 
 func (f *Frame) panicExit(pos token.Pos, why string) {
 	e := f.e
+	if f.orderExec {
+		// order check: an explicit panic in the loop body is an early exit of the loop
+		f.rets = append(f.rets, retSite{reach: f.curReach, heap: f.heap})
+		return
+	}
 	if f.top && e.con != nil {
 		if !e.con.MayPanic {
 			e.addObl("nopanic", why, f.curReach, "false", pos, "explicit panic must be unreachable", f.props())
